@@ -190,7 +190,7 @@ def main(run):
         alpha = float(tofrac(cfg["alpha"]))
         for t in range(cfg["steps"]):
             try:
-                sc.step()
+                sc.step(**sc.call_kwargs())      # incl. calls with update_storage=False / a per-call n_inner_samples
             except KeyError as ex:
                 run.other_error(f"C15:step:{type(ex).__name__}")
                 break
